@@ -6,7 +6,8 @@ Require Extraction.
 Require Import ExtrOcamlBasic.
 From JsonSyntax Require Import Base.Prelude Base.Value Base.Unicode Model.Kind Spec.KindSpec
   Model.Parser Model.EntryPoints Model.Compare Model.Object Model.CodeMapNav
-  Model.Printer Spec.Minimal Spec.Layout Model.Unordered Spec.Multimap.
+  Model.Printer Spec.Minimal Spec.Layout Model.Unordered Spec.Multimap
+  Base.Float64 Spec.EcmaNumber Spec.Jcs Model.Canon.
 
 Extraction Language OCaml.
 Set Extraction KeepSingleton.
@@ -41,4 +42,7 @@ Extraction "model.ml"
   (* multimap spec *)
   m_contains m_indexes_of m_index_of m_redundant_index_of m_get_entries m_get m_get_entries_with_index
   m_get_unique m_get_unique_entry m_push m_push_front m_remove_at m_insert m_insert_front m_remove
-  m_remove_unique m_get_or_insert_with m_set_value_at m_extend m_from_vec.
+  m_remove_unique m_get_or_insert_with m_set_value_at m_extend m_from_vec
+  (* canonicalization *)
+  canonicalize canon_number jcs read_decimal nearest_double ecma_to_string sf_bits sf_of_bits
+  sf_is_finite utf16_cmp key_lt.
